@@ -206,6 +206,12 @@ package contractcourt
 //@   site call InsertUnresolvedContracts: assert arg(2) == retn(prepContractResolutions, 0) && retn(prepContractResolutions, 1) == nil
 //@   site call resolveContracts: assert ret(InsertUnresolvedContracts) == nil && arg(1) == retn(prepContractResolutions, 0)
 //@   site call NotifyChannelResolved: assert c.state == StateFullyResolved
+//@   // broadcast stage: the force-close tx is recorded as broadcast (durably) before it is published, and it is that tx
+//@   site call MarkCommitmentBroadcasted: assert arg(0) == retn(ForceCloseChan, 0) && retn(ForceCloseChan, 1) == nil && arg(1) == lntypes.Local &&
+//@        old(c.state) == StateBroadcastCommit
+//@   site call PublishTx: assert arg(0) == retn(ForceCloseChan, 0) && ret(MarkCommitmentBroadcasted) == nil
+//@   site call ForceCloseChan: assert old(c.state) == StateBroadcastCommit && trigger != localCloseTrigger && trigger != remoteCloseTrigger &&
+//@        trigger != breachCloseTrigger && trigger != coopCloseTrigger
 //@   ensures (old(c.state) == StateWaitingFullResolution && result2 == nil && result0 == StateFullyResolved) ==>
 //@           len(retn(FetchUnresolvedContracts, 0)) == 0 && retn(FetchUnresolvedContracts, 1) == nil
 //@
